@@ -333,3 +333,14 @@ def prop_C12(repo, tier):
 
 PROPS = {'C01': prop_C01, 'C02': prop_C02, 'C03': prop_C03, 'C04': prop_C04, 'C05': prop_C05, 'C06': prop_C06,
          'C12': prop_C12, 'C13': prop_C13}
+
+TECHNIQUE = {
+    'C01': 'static analysis: abstract interpretation with index typestate (mergeflow)',
+    'C02': 'static analysis: abstract interpretation with index typestate (mergeflow)',
+    'C03': 'static analysis: effect/frame analysis + nullness of ID operands (mergeflow)',
+    'C04': 'static analysis: provenance taint + typestate on the payload copy (mergeflow)',
+    'C05': 'static analysis: reachability of exceptional exits after mutation effects (mergeflow)',
+    'C06': 'static analysis: typestate of pending miss reports vs. raise/warn effects (mergeflow)',
+    'C12': 'static analysis: nullness / partial-operation analysis with exception flow (nullflow)',
+    'C13': 'static analysis: provenance taint analysis, sanitiser = copy.deepcopy (mergeflow)',
+}
